@@ -133,11 +133,37 @@ func reflectWitnesses() []*descriptorpb.FileDescriptorSet {
 		wMsg("A", wField("b", 1, kMessage, wType("wt.v1.B"))),
 		wMsg("B", wField("c", 1, kMessage, wType("wt.v1.C")), wField("bs", 2, kMessage, wType("wt.v1.B"), wRepeated())),
 		wMsg("C", wField("a", 1, kMessage, wType("wt.v1.A")))))
+	// 12: an exposed oneof whose property name (lowerCamel of the oneof name) is the JSON name of a
+	// sibling field: two properties of one name in the object — a schema error (seeded change C18-m3
+	// replaced the property-level check by one over the descriptor's fields)
+	expo := wMsg("Account", wField("email", 1, kString), wField("phone", 2, kString), wField("contactInfo", 3, kString))
+	expo.OneofDecl = []*descriptorpb.OneofDescriptorProto{{Name: proto.String("contact_info"), Options: &descriptorpb.OneofOptions{}}}
+	proto.SetExtension(expo.OneofDecl[0].Options, ext_j5pb.E_Oneof, &ext_j5pb.OneofOptions{Expose: true})
+	expo.Field[0].OneofIndex = proto.Int32(0)
+	expo.Field[1].OneofIndex = proto.Int32(0)
+	out = append(out, wFile([]string{depJ5}, nil, expo))
+	// 13: validate `ignore` with a repeated rule that has no items, on a list and on a single field
+	// (getProtoFieldExtensions unwraps the repeated rule into a nil item rule; seeded change C18-m1
+	// dropped the nil default after the unwrap)
+	ign := func(min uint64) fopt {
+		return wExt(&validate.FieldConstraints{Ignore: validate.Ignore_IGNORE_IF_UNPOPULATED.Enum(),
+			Type: &validate.FieldConstraints_Repeated{Repeated: &validate.RepeatedRules{MinItems: proto.Uint64(min)}}})
+	}
+	out = append(out, wFile([]string{depValidate}, nil,
+		wMsg("M", wField("tags", 1, kString, wRepeated(), ign(1)), wField("tag", 2, kString, ign(0)))))
 	return out
 }
 
-func loopWitnesses() []*descriptorpb.FileDescriptorSet {
-	var out []*descriptorpb.FileDescriptorSet
+// loopWitness: a descriptor set and (optionally) the root packages which are the image's direct
+// packages; the others are reached through references only.
+type loopWitness struct {
+	fds    *descriptorpb.FileDescriptorSet
+	direct string
+}
+
+func loopWitnesses() []loopWitness {
+	var out []loopWitness
+	add := func(fds *descriptorpb.FileDescriptorSet) { out = append(out, loopWitness{fds: fds}) }
 	// 0: enum option info + info fields (fixed 622a251)
 	e := wEnum("Colour", "COLOUR_UNSPECIFIED", "COLOUR_RED")
 	for _, v := range e.Value {
@@ -146,18 +172,30 @@ func loopWitnesses() []*descriptorpb.FileDescriptorSet {
 	}
 	e.Options = &descriptorpb.EnumOptions{}
 	proto.SetExtension(e.Options, ext_j5pb.E_Enum, &ext_j5pb.EnumOptions{InfoFields: []*ext_j5pb.EnumInfoField{{Name: "hex", Label: "Hex", Description: "rgb"}}})
-	out = append(out, wFile([]string{depJ5}, []*descriptorpb.EnumDescriptorProto{e},
+	add(wFile([]string{depJ5}, []*descriptorpb.EnumDescriptorProto{e},
 		wMsg("M", wField("c", 1, kEnum, wType("wt.v1.Colour")))))
 	// 1: list rules on any, enum and (through a oneof wrapper) oneof fields (fixed 729e9c2)
 	filt := &list_j5pb.FilteringConstraint{Filterable: true}
 	wrapper := wMsg("W", wField("m", 1, kMessage, wType("wt.v1.M")))
 	wrapper.OneofDecl = []*descriptorpb.OneofDescriptorProto{{Name: proto.String("type")}}
 	wrapper.Field[0].OneofIndex = proto.Int32(0)
-	out = append(out, wFile([]string{depList, "j5/types/any/v1/any.proto"}, []*descriptorpb.EnumDescriptorProto{wEnum("Kind", "KIND_UNSPECIFIED", "KIND_A")},
+	add(wFile([]string{depList, "j5/types/any/v1/any.proto"}, []*descriptorpb.EnumDescriptorProto{wEnum("Kind", "KIND_UNSPECIFIED", "KIND_A")},
 		wMsg("M",
 			wField("a", 1, kMessage, wType("j5.types.any.v1.Any"), wExt(&list_j5pb.FieldConstraint{Type: &list_j5pb.FieldConstraint_Any{Any: &list_j5pb.AnyRules{Filtering: filt}}})),
 			wField("k", 2, kEnum, wType("wt.v1.Kind"), wExt(&list_j5pb.FieldConstraint{Type: &list_j5pb.FieldConstraint_Enum{Enum: &list_j5pb.EnumRules{Filtering: filt}}})),
 			wField("w", 3, kMessage, wType("wt.v1.W"), wExt(&list_j5pb.FieldConstraint{Type: &list_j5pb.FieldConstraint_Oneof{Oneof: &list_j5pb.OneofRules{Filtering: filt}}}))),
 		wrapper))
+	// 2: a reference from the only direct package (demo.v1) into a SUB-package of a package which is
+	// included indirectly (shared.v1.topic), whose message uses an enum referenced only from that
+	// field (seeded change C15-m2 skipped the sub-packages of indirect packages on import)
+	payload := wMsg("Payload", wField("id", 1, kString), wField("kind", 2, kEnum, wType("shared.v1.topic.Payload.Kind")))
+	payload.EnumType = []*descriptorpb.EnumDescriptorProto{wEnum("Kind", "KIND_UNSPECIFIED", "KIND_SMALL")}
+	out = append(out, loopWitness{direct: "demo.v1", fds: &descriptorpb.FileDescriptorSet{File: []*descriptorpb.FileDescriptorProto{
+		{Name: proto.String("shared/v1/topic/payload.proto"), Package: proto.String("shared.v1.topic"), Syntax: proto.String("proto3"),
+			MessageType: []*descriptorpb.DescriptorProto{payload}},
+		{Name: proto.String("demo/v1/demo.proto"), Package: proto.String("demo.v1"), Syntax: proto.String("proto3"),
+			Dependency:  []string{"shared/v1/topic/payload.proto"},
+			MessageType: []*descriptorpb.DescriptorProto{wMsg("Envelope", wField("payload", 1, kMessage, wType("shared.v1.topic.Payload")))}},
+	}}})
 	return out
 }
